@@ -24,7 +24,10 @@ ASSUMPTIONS = ["'that pointer's string form parsed again' uses unicode_escape=Fa
 
 NAMES = ["a", "b", "", "'", '"', "\\", "a\\", "\\\\", "a'b", 'a"b', "/", "~", "~1", "a/b", "0", "1", "01", "-1", "+1", " ", "\n",
          "\t", "\x01", "\x1f", "\x7f", "é", "中", "\U0001F600", "\ud83d", "and", "true", "$", "@", "*", "..", "[0]", "#", "_x",
-         "x-y", "'\\'", "\\'", "1٢", "1０", "-1٢", "12", "10"]
+         "x-y", "'\\'", "\\'", "1٢", "1０", "-1٢", "12", "10",
+         # plain names with a blank / line-end / separator character at either END (what `$`, strip() and splitlines() treat specially)
+         "a\n", "\na", "x.y\n", "total\n", "a\n\n", "a\r", "a\r\n", "ab\t", " a", "a ", "a\x0b", "a\x0c", "a\x1c", "a\x85", "a\u2028",
+         "a\u00a0", "\ufeffa", "a\x00"]
 
 
 def no_keys(x):
